@@ -48,7 +48,8 @@ TARGETS = {
             "delete_residual", "delete_residual_around", "insertInline_residual", "insertInline_residual_around",
             "replace_residual_of_inv", "replace_residual", "replace_residual_cut",
             "replaceOp_residual", "editHistory_undo_bmp", "editResidual_of'", "editHistory_undo_bmp'",
-            "fit_around_gapFitsBack", "editResidual'_of_hyps", "editHistory_undo"],
+            "fit_around_gapFitsBack", "editResidual'_of_hyps", "editHistory_undo", "deleteOp_residual",
+            "insertInlineOp_residual"],
     "C11": ["fitStep_decreases", "fitLoop_outOfFuel_exact", "fitLoop_terminates", "replaceStep_outOfFuel_cycle",
             "replaceStep_not_outOfFuel", "fit_no_internal_partial", "replaceStep_total_partial", "delete_total",
             "delete_total_respects", "deleteRange_total", "insertInline_total", "fit_emits_wf", "coherent_invariant",
